@@ -367,23 +367,20 @@ def probe_unconsumable_operands(ctx: common.Ctx):
                 ctx.count('unconsumable_operand_accepted')
 
 
-SIG_SPENT_LEFT = 'C19:refusal-not-atomic:spent-left-operand'     # proposed known finding (fixes/number-expr-spent-left-operand.*)
 SPENT_LEFT_TEXT = '2000-01-01 *\n    Assets:Foo       7 USD\n    Assets:Bar\n'
 
 
 def probe_spent_left_operand(ctx: common.Ctx):
-    """Directed: the LEFT operand of an in-place operator is a NumberExpr whose tree was legally moved into a number of a
-    ledger. Every `left OP= x` must be refused (it is: ValueError) with that ledger exactly as it was. `*=` / `/=` on a
-    sum write the parentheses into the ledger (through the tree's token store) before the splice into the left operand's
-    own, empty store raises: model C19_arith_spent_self_refuted. That outcome is reported under SIG_SPENT_LEFT once the
-    signature is registered in known_findings.json (until then it is only counted, so that the check keeps its exit
-    status on the unchanged tree); any other change of the ledger by a refused call is a violation."""
+    """Directed: the LEFT operand of an in-place operator is a NumberExpr whose tree was moved into a number of a ledger.
+    Every `left OP= x` must be refused (ValueError) with that ledger exactly as it was: C19_arith_refused_atomic covers the
+    spent left operand (repaired defect number-expr-spent-left-operand: `*=` / `/=` on a sum used to write the parentheses
+    into the receiving ledger through the tree's token store before the splice into the left operand's own, empty store
+    raised; model of the code as found: C19_asfound_arith_spent_self_refuted). Any change is a violation."""
     import decimal
     import operator
     from autobean_refactor import models, parser as parser_lib
     from harness import gen_docs
     parser = parser_lib.Parser()
-    registered = any(k.get('signature') == SIG_SPENT_LEFT for k in common.load_known())
     ops = [('+=', operator.iadd), ('-=', operator.isub), ('*=', operator.imul), ('/=', operator.itruediv)]
     for left in ('1 + 2', '4', '2 * 3', '8 / 2 - 1', '(1 + 2)', '1 - -2'):
         for opn, fn in ops:
@@ -411,17 +408,10 @@ def probe_spent_left_operand(ctx: common.Ctx):
                 except Exception as y:
                     ctx.monitor_failure(c03.SIG_ATOMIC, f'<spent {left!r}> {opn} 3 raised {type(x).__name__} and left a ledger that cannot be read ({type(y).__name__})', w)
                     continue
-                if after == before:
-                    continue
-                line = after[0].splitlines()[1]
-                expected = f'    Assets:Foo       ({left}) USD'
-                if opn in ('*=', '/=') and line == expected and after[2:] == before[2:]:
-                    ctx.count('spent_left_operand_refusal_wrote_parentheses')
-                    if registered:
-                        ctx.monitor_failure(SIG_SPENT_LEFT, f'<NumberExpr {left!r} whose tree was moved into a posting> {opn} 3 raised {type(x).__name__} '
-                                            f'but the posting now prints {line!r}: parentheses that no node owns', w)
-                else:
-                    ctx.monitor_failure(c03.SIG_ATOMIC, f'<spent {left!r}> {opn} 3 raised {type(x).__name__} but the ledger now prints {after[0]!r}', w)
+                if after != before:
+                    line = after[0].splitlines()[1]
+                    ctx.monitor_failure(c03.SIG_ATOMIC, f'<NumberExpr {left!r} whose tree was moved into a posting> {opn} 3 raised {type(x).__name__} '
+                                        f'but the posting now prints {line!r} (was {before[0].splitlines()[1]!r})', w)
             else:
                 ctx.count('spent_left_operand_accepted')
 
